@@ -693,6 +693,9 @@ def run(ctx):
     corners = gen_corners(ctx, ctx.n(150, 1500))
     slices = gen_slices(ctx, ctx.n(100, 1000))
     rcases = gen_resample(ctx, ctx.n(21, 126))
+    # the long strips (> 65536 pixels along one axis) go last: the first `nx` cases are also run under tiny PYTROLL_CHUNK_SIZE values,
+    # which on such a source means tens of thousands of dask chunks (the thorough tier once ran into the driver timeout that way)
+    rcases.sort(key=lambda c: c["template"].startswith("long_strip"))
     limits = gen_limit(ctx, ctx.n(60, 600))
     scatters = gen_scatter(ctx, ctx.n(80, 800))
 
@@ -705,20 +708,23 @@ def run(ctx):
                "limit": [dict(c, data=hx(c["data"]), res=hx(c["res"]), fill=float(c["fill"]).hex()) for c in limits],
                "scatter": [dict(c, bands=[hx(b) for b in c["bands"]]) for c in scatters]}
     # full resamplers: numpy + xarray in this process, xarray again under other PYTROLL_CHUNK_SIZE values
-    with ThreadPoolExecutor(max_workers=6) as ex:
-        f_main = ex.submit(ctx.impl, IMPL, payload)
-        groups = [rcases[i::4] for i in range(4)]
-        f_res = [ex.submit(ctx.impl, IMPL, {"resample": g}) for g in groups]
+    # the full-resampler cases are spread over NG driver processes (more in the thorough tier, whose per-case reruns -- layouts,
+    # masked data, joint computes, long strips -- once ran into the driver timeout under machine load: a timeout is not a verdict)
+    NG = 10 if ctx.thorough else 4
+    with ThreadPoolExecutor(max_workers=NG + 4) as ex:
+        f_main = ex.submit(ctx.impl, IMPL, payload, 3000)
+        groups = [rcases[i::NG] for i in range(NG)]
+        f_res = [ex.submit(ctx.impl, IMPL, {"resample": g}, 3000) for g in groups]
         nx = ctx.n(5, 24)
         xcases = [dict(c, want_numpy=False, chunkings=ch) for c, ch in
                   zip(rcases[:nx], [[[3, 4], [100, 100]], [[1, 5]], [[5, 1], [2, 2]], [[4, 4]], [[7, 3]]] * 5)]
         envs = [{"PYTROLL_CHUNK_SIZE": "4"}, {"PYTROLL_CHUNK_SIZE": "7"}, {"PYTROLL_CHUNK_SIZE": "4096"}]
-        f_x = [ex.submit(ctx.impl, IMPL, {"resample": xcases}, 1800, e) for e in envs]
+        f_x = [ex.submit(ctx.impl, IMPL, {"resample": xcases}, 3000, e) for e in envs]
         obs = f_main.result()
         robs = [None] * len(rcases)
         for gi, f in enumerate(f_res):
             for j, o in enumerate(f.result()["resample"]):
-                robs[gi + 4 * j] = o
+                robs[gi + NG * j] = o
         xobs = [f.result()["resample"] for f in f_x]
 
     texts = []
